@@ -12,7 +12,8 @@ EXPLANATION = ("Structural necessary conditions of C04: (who may print) among th
 RULES = ("R1 solver-reachable functions that reach std::io::_print = print cells + elapsed printer, with print_kb/print_ss "
          "as positive examples of non-solver print sites; R2 each output cell is dominated by the one-shot guard with the "
          "flag cleared first; R3 the three cells return Some(clone of own ss); R4 next_solution_print formats "
-         "get_ground_term(arg) when bound, else the argument, in argument order, and prints once")
+         "get_ground_term(arg) when bound, else the argument, in argument order, and prints once; R5 the `%s` marker is "
+         "searched only in the first argument (format string), never in text that already contains substituted values")
 TRUSTED = ["rustc nightly MIR construction", "std::io::_print is the only stdout writer used (print!/println!)"]
 
 PRINT_FNS = {"std::io::_print", "std::io::_eprint", "std::io::stdout", "std::io::Stdout::write", "std::io::Write::write_all"}
@@ -148,3 +149,41 @@ def run(ctx):
                 ok, why = False, "the binding lookup result is not examined"
     ctx.ob("R4", "print-renders-bound-values", ok and n > 0, ctx.where(P), why or
            "each of %d pushed strings formats get_ground_term(arg) when bound, else arg" % n)
+
+    # ---- R5: `%s` markers are looked for in the first argument only ------------------------------------------------
+    # (text spliced in from the other arguments must never be searched for markers again)
+    F = None
+    for bb, t in P.calls():
+        nm = t["callee"].get("resolved") or t["callee"]["path"]
+        cand = next((b for b in prog.lib_bodies() if b.path == nm), None)
+        if cand is not None and cand.mir["arg_count"] == 1 and "Vec<std::string::String>" in cand.locals[1]["s"]:
+            F = cand
+    if F is None:
+        ctx.missing("R5", "the formatter called by the print built-in")
+        return
+    ctx.fn(F)
+    strs = ("param", 1, F.locals[1].get("name") or "")
+    fps = Walker(F, max_visits=3, max_paths=50000).paths()
+    ctx.stats["paths_walked"] += len(fps)
+    n, bad = 0, None
+
+    def is_marker(a):
+        a = strip(a)
+        return (a[0] == "static" and "FORMAT_SPECIFIER" in a[1]) or (a[0] == "const" and a[2].strip('"') == "%s") or \
+            (a[0] == "field" and a[1][0] == "static")
+
+    def first_string(t):
+        t = strip(t)
+        while t[0] == "call" and (t[1].endswith("::to_string") or t[1].endswith("::as_str") or t[1].endswith("::deref")):
+            t = strip(t[2][0])
+        return t[0] == "call" and t[1].endswith("::index") and strip(t[2][0]) == strs and t[2][1][0] == "const" and t[2][1][3] == 0
+    for p in fps:
+        for e in p.calls():
+            if len(e["args"]) >= 2 and any(is_marker(a) for a in e["args"][1:]):
+                n += 1
+                if not first_string(e["args"][0]):
+                    bad = e
+    ctx.ob("R5", "markers-only-in-format-string", bad is None and n > 0, ctx.where(F, bad["line"] if bad else None),
+           "%s searches for the `%%s` marker in %s, which is not the first argument: text substituted from a later argument "
+           "is scanned for markers again" % (bad["callee"].split("::")[-1], show(bad["args"][0])[:80]) if bad else
+           "every marker search (%d call events) is on the first argument" % n)
